@@ -1,7 +1,9 @@
 package main
 
 import (
+	"bytes"
 	"fmt"
+	"runtime"
 	"strconv"
 	"strings"
 	"sync"
@@ -66,6 +68,11 @@ type c27Ep struct {
 
 type c27Thread struct {
 	eps []*c27Ep
+	// run mode: park is called by the MatchFunc of an `N` endpoint before it answers; it parks (harness
+	// yield `match`) when the call comes from this thread's own NewEndpoint, i.e. from inside m.lock
+	park  func()
+	gid   uint64
+	inNew bool
 }
 
 func c27HexList(l [][]byte) string {
@@ -83,13 +90,23 @@ func c27HexList(l [][]byte) string {
 // c27Act performs one creator act; returns false on a malformed act.
 func c27Act(vm *webrtc.VerifMux, th *c27Thread, a string) bool {
 	switch {
-	case strings.HasPrefix(a, "n"):
+	case strings.HasPrefix(a, "n"), strings.HasPrefix(a, "N"):
 		f, ok := c27Matcher(a[1:])
 		if !ok {
 			return false
 		}
 		ep := &c27Ep{tok: a[1:]}
+		if a[0] == 'N' && th.park != nil {
+			inner := f
+			f = func(b []byte) bool {
+				th.park()
+
+				return inner(b)
+			}
+		}
+		th.inNew = true
 		ep.ep = vm.NewEndpoint(f)
+		th.inNew = false
 		th.eps = append(th.eps, ep)
 	case strings.HasPrefix(a, "x"):
 		k, err := strconv.Atoi(a[1:])
@@ -273,7 +290,13 @@ func c27Run(p *c27Prog) string {
 				}
 			}
 			bad := false
+			th.park = func() {
+				if th.inNew && curGID() == th.gid {
+					s.Yield("match")
+				}
+			}
 			s.Go(name, func() {
+				th.gid = curGID()
 				for j, a := range acts {
 					if j > 0 {
 						s.Yield("act")
@@ -294,11 +317,12 @@ func c27Run(p *c27Prog) string {
 		return "bad-op" // the Mux has one readLoop
 	}
 	ev := []string{}
+	st := &c27Stepper{s: s}
 	for _, n := range p.sched {
-		ev = append(ev, n+":"+s.Step(n))
+		ev = append(ev, n+":"+st.step(n))
 	}
 	ev = append(ev, "/")
-	ev = append(ev, s.Drain(400)...)
+	ev = append(ev, st.drain(400)...)
 	stuck := []string{}
 	all := s.AllNames()
 	s.mu.Lock()
@@ -316,12 +340,196 @@ func c27Run(p *c27Prog) string {
 		loop = "dead"
 	}
 	mu.Unlock()
-	st := "all-fin"
+	stt := "all-fin"
 	if len(stuck) > 0 {
-		st = "stuck:" + strings.Join(stuck, ",")
+		stt = "stuck:" + strings.Join(stuck, ",")
 	}
 
-	return strings.Join(ev, " ") + " | " + fin + " | loop " + loop + " | " + st
+	return strings.Join(ev, " ") + " | " + fin + " | loop " + loop + " | " + stt
+}
+
+// c27Stepper releases threads like Sched.Step, plus the rule for a creator parked at `match` (inside
+// NewEndpoint's m.lock section): another thread released meanwhile either finishes its segment (it needs
+// no m.lock) or is found waiting for the mutex (`blocked`, decided from its goroutine state, not from a
+// timeout); while one thread waits, the others are not released (`held`), so at most one thread queues
+// on the lock and its segment runs deterministically as soon as the creator has left the section.
+type c27Stepper struct {
+	s      *Sched
+	holder string
+	waiter string
+}
+
+// goMutexWaiting reports whether goroutine gid is queued on a sync.Mutex.
+func goMutexWaiting(gid uint64) bool {
+	buf := make([]byte, 1<<16)
+	for {
+		n := runtime.Stack(buf, true)
+		if n < len(buf) {
+			buf = buf[:n]
+
+			break
+		}
+		buf = make([]byte, 2*len(buf))
+	}
+	key := []byte(fmt.Sprintf("goroutine %d [", gid))
+	i := bytes.Index(buf, key)
+	if i < 0 || (i > 0 && buf[i-1] != '\n') {
+		return false
+	}
+	rest := buf[i+len(key):]
+	j := bytes.IndexByte(rest, ']')
+	if j < 0 {
+		return false
+	}
+	state := string(rest[:j])
+	if k := strings.IndexByte(state, ','); k >= 0 {
+		state = state[:k]
+	}
+
+	return state == "sync.Mutex.Lock" || state == "semacquire"
+}
+
+// settle: th has parked or finished; returns its label ("fin" when done) and keeps Sched's books.
+func (st *c27Stepper) settle(name string, th *schedThread) string {
+	s := st.s
+	s.mu.Lock()
+	defer s.mu.Unlock()
+	th.blocked = false
+	if th.state == thDone {
+		s.finished[name] = true
+
+		return "fin"
+	}
+
+	return th.label
+}
+
+// probe releases a parked thread while a creator holds m.lock.
+func (st *c27Stepper) probe(name string) string {
+	s := st.s
+	s.mu.Lock()
+	th, ok := s.byName[name]
+	s.mu.Unlock()
+	if !ok {
+		return s.Step(name)
+	}
+	if !s.waitParked(th, 20*time.Second) {
+		return "skip"
+	}
+	s.mu.Lock()
+	if th.state == thDone {
+		s.mu.Unlock()
+
+		return "skip"
+	}
+	th.state = thFlying
+	s.mu.Unlock()
+	th.resume <- struct{}{}
+	seen := 0
+	deadline := time.Now().Add(20 * time.Second)
+	for time.Now().Before(deadline) {
+		if s.waitParked(th, 300*time.Microsecond) {
+			return st.settle(name, th)
+		}
+		if goMutexWaiting(th.gid) {
+			seen++
+			if seen >= 3 {
+				if s.waitParked(th, 0) {
+					return st.settle(name, th)
+				}
+
+				return "blocked"
+			}
+		} else {
+			seen = 0
+		}
+	}
+
+	return "blocked"
+}
+
+func (st *c27Stepper) step(name string) string {
+	s := st.s
+	if name == st.waiter {
+		return "skip"
+	}
+	if st.holder != "" && name != st.holder {
+		s.mu.Lock()
+		fin := s.finished[name]
+		s.mu.Unlock()
+		if fin {
+			return "skip"
+		}
+		s.mu.Lock()
+		_, known := s.byName[name]
+		s.mu.Unlock()
+		if !known {
+			return s.Step(name)
+		}
+		if st.waiter != "" {
+			return "held"
+		}
+		r := st.probe(name)
+		if r == "blocked" {
+			st.waiter = name
+		}
+
+		return r
+	}
+	r := s.Step(name)
+	if r == "match" {
+		st.holder = name
+
+		return r
+	}
+	if name == st.holder {
+		st.holder = ""
+		if st.waiter != "" { // the lock is free: the waiting thread runs its segment by itself
+			w := st.waiter
+			st.waiter = ""
+			s.mu.Lock()
+			th := s.byName[w]
+			s.mu.Unlock()
+			if s.waitParked(th, 20*time.Second) {
+				if st.settle(w, th) == "match" {
+					st.holder = w
+				}
+			}
+		}
+	}
+
+	return r
+}
+
+func (st *c27Stepper) drain(limit int) []string {
+	s := st.s
+	ev := []string{}
+	for len(ev) < limit {
+		progressed := false
+		for _, n := range s.AllNames() {
+			s.mu.Lock()
+			fin := s.finished[n]
+			s.mu.Unlock()
+			if fin || n == st.waiter {
+				continue
+			}
+			r := st.step(n)
+			if r == "skip" {
+				s.mu.Lock()
+				s.finished[n] = true
+				s.mu.Unlock()
+			}
+			ev = append(ev, n+":"+r)
+			if r != "held" && r != "skip" && r != "blocked" {
+				progressed = true
+			}
+		}
+		if !progressed {
+			break
+		}
+	}
+
+	return ev
 }
 
 // ---- generators ----
@@ -417,7 +625,11 @@ func (g *c27Gen) acts(minep *[]string, fam []string, reg map[string]bool, owner 
 			reg[t] = true
 			owner[t] = me
 			mine = append(mine, t)
-			acts = append(acts, "n"+t)
+			if r.Intn(3) == 0 { // its MatchFunc parks inside NewEndpoint's locked section
+				acts = append(acts, "N"+t)
+			} else {
+				acts = append(acts, "n"+t)
+			}
 		case roll < 8: // close one of my endpoints (sometimes an index that does not exist)
 			if r.Intn(10) == 0 {
 				acts = append(acts, fmt.Sprintf("x%d", len(mine)+r.Intn(3)))
@@ -524,7 +736,13 @@ func (g *c27Gen) runProg() (specs []string, maxSeg []int) {
 			a = []string{"r0"}
 		}
 		specs = append(specs, "E:"+strings.Join(a, ","))
-		maxSeg = append(maxSeg, 2*len(a))
+		seg := 2 * len(a)
+		for _, x := range a {
+			if x[0] == 'N' {
+				seg += nd / 2
+			}
+		}
+		maxSeg = append(maxSeg, seg)
 	}
 	// the dispatcher is not always T0
 	if r.Intn(4) == 0 {
@@ -606,8 +824,10 @@ func init() {
 			"Mux.Close, buffer limits and reads; 1/8 long enough to overflow the 15-packet pending queue. run: programs of one " +
 			"dispatcher thread (1..7, sometimes 16..20 datagrams, 1/300 with a 64 KiB datagram) and 1..3 endpoint-creator threads executed on the real Mux " +
 			"under the cooperative scheduler (yields after NewEndpoint's critical section, between dispatch's lookup and its " +
-			"buffer write, inside Endpoint.Close), with a seeded blind schedule then a fixed-order drain; plus EVERY " +
-			"interleaving of 6 small programs (2..3 datagrams × one creator with 1..2 acts; thorough: also 2 datagrams × " +
+			"buffer write, inside Endpoint.Close; 1/3 of the endpoints get a MatchFunc that parks at every call made by " +
+			"NewEndpoint itself, i.e. with m.lock held: a thread released meanwhile must be found waiting for the mutex), " +
+			"with a seeded blind schedule then a fixed-order drain; plus EVERY " +
+			"interleaving of 7 small programs (2..3 datagrams × one creator with 1..2 acts, one with a parking MatchFunc; thorough: also 2 datagrams × " +
 			"two creators, and create/close/create). Non-trivial: distinct op lines; cls/clsrow lines that " +
 			"differ only in unused bytes, and pipe/run lines without a datagram or without an endpoint, are trivial.",
 		Gen: func(c *Ctx) {
@@ -639,9 +859,20 @@ func init() {
 			enum := func(sp []string) {
 				names := []string{}
 				total := 0
+				nd := 0
+				for _, t := range sp {
+					if t[0] == 'D' {
+						nd = len(strings.Split(t[2:], ","))
+					}
+				}
 				for i, t := range sp {
 					names = append(names, fmt.Sprintf("T%d", i))
-					total += 2 * len(strings.Split(t[2:], ","))
+					for _, x := range strings.Split(t[2:], ",") {
+						total += 2
+						if x[0] == 'N' { // one more segment per MatchFunc call of the flush
+							total += nd
+						}
+					}
 				}
 				c27Words(names, total, func(w []string) {
 					c.Emit("run %s sched %s", strings.Join(sp, " "), strings.Join(w, " "))
@@ -654,6 +885,7 @@ func init() {
 				{"D:16fefd0001,16fefd0002", "E:ndtls,x0"},
 				{"E:nrtp", "D:80c80001,80600002"},
 				{"D:16fefd0001,16fefd0002,16fefd0003", "E:ndtls"},
+				{"D:16fefd0001,16fefd0002", "E:Ndtls"},
 			} {
 				enum(sp)
 			}
@@ -663,6 +895,7 @@ func init() {
 					{"D:16fefd0001,16fefd0002", "E:ndtls", "E:nsrtp"},
 					{"D:80c80001,80600002", "E:nsrtcp", "E:nsrtp"},
 					{"D:16fefd0001,16fefd0002", "E:ndtls,x0,ndtls"},
+					{"D:16fefd0001,16fefd0002,16fefd0003", "E:Ndtls"},
 				} {
 					enum(sp)
 				}
@@ -759,6 +992,9 @@ func init() {
 						nd++
 					case strings.HasPrefix(p, "n"):
 						ne++
+					case strings.HasPrefix(p, "N"):
+						ne++
+						has["park-in-lock"] = true
 					case p == "q":
 						has["muxclose"] = true
 					case strings.HasPrefix(p, "x"):
@@ -776,7 +1012,10 @@ func init() {
 			if len(strings.Join(a, " ")) > 100000 {
 				fl = append(fl, "64KiB-datagram")
 			}
-			for _, k := range []string{"epclose", "muxclose", "limit", "read"} {
+			if strings.Contains(out, ":blocked") {
+				has["blocked-on-lock"] = true
+			}
+			for _, k := range []string{"epclose", "muxclose", "limit", "read", "park-in-lock", "blocked-on-lock"} {
 				if has[k] {
 					fl = append(fl, k)
 				}
